@@ -613,7 +613,7 @@ theorem removeValue_fields (fuel : Nat) (procs : Nat → Proc) (p k q : Nat) :
     ((removeValue fuel procs p k).1 q).terminated = (procs q).terminated ∧
     ((removeValue fuel procs p k).1 q).err = (procs q).err ∧
     ((removeValue fuel procs p k).1 q).done = (procs q).done ∧
-    ((removeValue fuel procs p k).1 q).waitCnt = (procs q).waitCnt ∧
+    ((removeValue fuel procs p k).1 q).children = (procs q).children ∧
     ((removeValue fuel procs p k).1 q).parent = (procs q).parent ∧
     ((removeValue fuel procs p k).1 q).ctok = (procs q).ctok ∧
     ((removeValue fuel procs p k).1 q).wtok = (procs q).wtok := by
@@ -657,12 +657,49 @@ theorem inert_trans {a b c : State} (h1 : Inert a b) (h2 : Inert b c) : Inert a 
   have x := h1.procs p; have y := h2.procs p
   exact ⟨y.1.trans x.1, y.2.1.trans x.2.1, y.2.2.1.trans x.2.2.1, y.2.2.2.trans x.2.2.2⟩
 
-theorem good_waitDone {s : State} (g : Good s) (p : Nat) : Good (waitDone s p) := by
+/-! ### `Broadcast` and the wait-done hook -/
+
+theorem broadcast_stack (s : State) (p t : Nat) : ((broadcast s p).threads t).stack = (s.threads t).stack := by
+  simp only [broadcast]; split <;> rfl
+
+theorem broadcast_forkReg (s : State) (p t q : Nat) :
+    ((broadcast s p).threads t).pc = .forkReg q ↔ (s.threads t).pc = .forkReg q := by
+  simp only [broadcast]
+  split
+  · rename_i h; rw [h]; constructor <;> intro x <;> cases x
+  · exact Iff.rfl
+
+theorem inert_broadcast (s : State) (g : Good s) (p : Nat) : Inert s (broadcast s p) :=
+  ⟨rfl, rfl, fun _ => ⟨rfl, rfl, rfl, rfl⟩, broadcast_stack s p, rfl, rfl, rfl,
+    fun t q h => g.pcOK t q ((broadcast_forkReg s p t q).mp h)⟩
+
+theorem inert_waitDone (s : State) (g : Good s) (p : Nat) : Inert s (waitDone s p) := by
   unfold waitDone
   dsimp only
+  have i1 := inert_setProc s g p { s.procs p with children := (s.procs p).children - 1 } rfl rfl rfl rfl
   split
-  · exact good_inert g ⟨rfl, rfl, fun _ => ⟨rfl, rfl, rfl, rfl⟩, fun _ => rfl, rfl, rfl, rfl, g.pcOK⟩
-  · exact good_inert g (inert_setProc s g p _ rfl rfl rfl rfl)
+  · exact inert_trans i1 (inert_broadcast _ (good_inert g i1) p)
+  · exact i1
+
+/-- the wait-done hook touches the `children` field of `p` only (and wakes threads) -/
+theorem waitDone_fields (s : State) (p c : Nat) :
+    ((waitDone s p).procs c).parent = (s.procs c).parent ∧ ((waitDone s p).procs c).wtok = (s.procs c).wtok ∧
+    ((waitDone s p).procs c).ctok = (s.procs c).ctok ∧ ((waitDone s p).procs c).hooks = (s.procs c).hooks ∧
+    ((waitDone s p).procs c).children = (if c = p then (s.procs p).children - 1 else (s.procs c).children) := by
+  have h : (waitDone s p).procs = upd s.procs p { s.procs p with children := (s.procs p).children - 1 } := by
+    unfold waitDone; dsimp only; split <;> rfl
+  rw [h]
+  by_cases e : c = p
+  · subst e; simp
+  · simp [upd_other _ _ e, e]
+
+theorem waitDone_ghost (s : State) (p : Nat) :
+    (waitDone s p).np = s.np ∧ (waitDone s p).nt = s.nt ∧ (waitDone s p).log = s.log ∧
+    (waitDone s p).nextTok = s.nextTok ∧ (waitDone s p).owner = s.owner ∧ (waitDone s p).late = s.late := by
+  unfold waitDone; dsimp only; split <;> exact ⟨rfl, rfl, rfl, rfl, rfl, rfl⟩
+
+theorem good_waitDone {s : State} (g : Good s) (p : Nat) : Good (waitDone s p) :=
+  good_inert g (inert_waitDone s g p)
 
 theorem good_startOp {s : State} (g : Good s) (t : Nat) (ht : t < s.nt) (op : Op) : Good (startOp s t op) := by
   cases op with
@@ -678,7 +715,7 @@ theorem good_startOp {s : State} (g : Good s) (t : Nat) (ht : t < s.nt) (op : Op
   | fork p =>
     simp only [startOp]; split
     · rename_i hp
-      have i1 := inert_setProc s g p { s.procs p with waitCnt := (s.procs p).waitCnt + 1 } rfl rfl rfl rfl
+      have i1 := inert_setProc s g p { s.procs p with children := (s.procs p).children + 1 } rfl rfl rfl rfl
       have g1 := good_inert g i1
       exact good_inert g1 (inert_setPc _ g1 t (.forkReg p) (by intro q hq; cases hq; exact hp))
     · exact g
@@ -727,8 +764,9 @@ theorem good_contStep {s : State} (g : Good s) (t : Nat) (ht : t < s.nt) : Good 
   · rename_i p hpc
     exact good_forkReg g t p ht (g.pcOK t p hpc)
   · split
+    · exact good_inert g (inert_setPc s g t (.waiting _) (by intro q hq; cases hq))
     · exact good_inert g (inert_setPc s g t .idle (by intro q hq; cases hq))
-    · exact g
+  · exact g
   · split
     · exact g
     · rename_i f rest hst
@@ -810,11 +848,13 @@ theorem same_addHook (s : State) (t q : Nat) (k : HookKind) (p : Nat) : Same s (
     · exact same_setProc s q p _ rfl rfl
 
 theorem same_waitDone (s : State) (q p : Nat) : Same s (waitDone s q) p := by
-  unfold waitDone
-  dsimp only
-  split
-  · exact ⟨rfl, rfl⟩
-  · exact same_setProc s q p _ rfl rfl
+  have h : (waitDone s q).procs = upd s.procs q { s.procs q with children := (s.procs q).children - 1 } := by
+    unfold waitDone; dsimp only; split <;> rfl
+  unfold Same
+  rw [h]
+  by_cases e : p = q
+  · subst e; simp
+  · simp [upd_other _ _ e]
 
 theorem flip_startOp (s : State) (t : Nat) (op : Op) (p : Nat) (hp : p < s.np) : Flip s (startOp s t op) p := by
   cases op with
@@ -827,7 +867,7 @@ theorem flip_startOp (s : State) (t : Nat) (op : Op) (p : Nat) (hp : p < s.np) :
                · exact (same_addHook s t q _ p).flip
                · exact Same.flip ⟨rfl, rfl⟩
   | fork q => simp only [startOp]; split
-              · exact Same.flip (Same.trans (same_setProc s q p { s.procs q with waitCnt := (s.procs q).waitCnt + 1 } rfl rfl) ⟨rfl, rfl⟩)
+              · exact Same.flip (Same.trans (same_setProc s q p { s.procs q with children := (s.procs q).children + 1 } rfl rfl) ⟨rfl, rfl⟩)
               · exact Same.flip ⟨rfl, rfl⟩
   | join q => simp only [startOp]; split <;> exact Same.flip ⟨rfl, rfl⟩
   | setv q k v => simp only [startOp]; split
@@ -848,6 +888,7 @@ theorem flip_contStep (s : State) (t : Nat) (p : Nat) (hp : p < s.np) : Flip s (
     have : p ≠ s.np := by omega
     simp [Same, mkChild, upd_other _ _ this]
   · split <;> exact Same.flip ⟨rfl, rfl⟩
+  · exact Same.flip ⟨rfl, rfl⟩
   · split
     · exact Same.flip ⟨rfl, rfl⟩
     · split
@@ -1113,13 +1154,7 @@ theorem casc_runHook {s : State} (h0 : Casc s none) (g : Good s) (t : Nat) (f : 
   · rename_i n hk; exact nonchild (by intro c; rw [hk]; intro e; cases e)
   · rename_i q hk
     have c1 := nonchild (by intro c; rw [hk]; intro e; cases e)
-    unfold waitDone; dsimp only; split
-    · exact casc_inert c1 ⟨rfl, rfl, fun _ => ⟨rfl, rfl, rfl, rfl⟩, fun _ => rfl, rfl, rfl, rfl, g1.pcOK⟩ (fun _ => rfl)
-    · refine casc_inert c1 (inert_setProc _ g1 q _ rfl rfl rfl rfl) ?_
-      intro c
-      by_cases e1 : c = q
-      · subst e1; simp
-      · simp [upd_other _ _ e1]
+    exact casc_inert c1 (inert_waitDone _ g1 q) (fun c => (waitDone_fields _ q c).1)
   · rename_i c' hk
     refine casc_mono h0 (by simp; rfl) (fun c _ => by rw [exitFlip_parent]; rfl)
       (fun c _ hc => terminated_exitFlip_mono (s := logMove s t f h hs rest) t c' f.err c hc) ?_
@@ -1145,9 +1180,9 @@ theorem casc_startOp {s : State} (h : Casc s none) (g : Good s) (t : Nat) (ht : 
   | fork p =>
     simp only [startOp]; split
     · rename_i hp
-      have i1 := inert_setProc s g p { s.procs p with waitCnt := (s.procs p).waitCnt + 1 } rfl rfl rfl rfl
+      have i1 := inert_setProc s g p { s.procs p with children := (s.procs p).children + 1 } rfl rfl rfl rfl
       have g1 := good_inert g i1
-      have c1 : Casc (setProc s p { s.procs p with waitCnt := (s.procs p).waitCnt + 1 }) none := by
+      have c1 : Casc (setProc s p { s.procs p with children := (s.procs p).children + 1 }) none := by
         refine casc_inert h i1 ?_
         intro c
         by_cases e1 : c = p
@@ -1193,8 +1228,9 @@ theorem casc_contStep {s : State} (h : Casc s none) (g : Good s) (t : Nat) (ht :
   · rename_i p hpc
     exact casc_forkReg h g t p ht (g.pcOK t p hpc)
   · split
+    · exact casc_inert h (inert_setPc s g t (.waiting _) (by intro q hq; cases hq)) (fun _ => rfl)
     · exact casc_inert h (inert_setPc s g t .idle (by intro q hq; cases hq)) (fun _ => rfl)
-    · exact h
+  · exact h
   · split
     · exact h
     · rename_i f rest hst
